@@ -186,6 +186,11 @@ func runC02(w *W) {
 			if b64 && env.DoInto {
 				env.OutPlace = simrt.PlaceGuardEnd
 			}
+			if b64 && negative != "" {
+				// one guard page only: a fault in a world with guarded output buffers is then a write past the
+				// output capacity (open finding F01), never an over-read of the truncated input (F12)
+				env.InPlace = simrt.PlaceHeap
+			}
 			w.NextOp(fmt.Sprintf("j2t doc %d env %s", d, env))
 			w.opFacts = map[string]string{"negative": fmt.Sprint(negative != ""), "in_place": simrt.PlaceNames[env.InPlace], "last_byte": lastByteClass(js), "literal_near_end": fmt.Sprint(literalNearEnd(js)),
 				"has_base64": fmt.Sprint(b64), "out_guarded": fmt.Sprint(b64)}
